@@ -3,7 +3,8 @@ Model of
 * `pkg/controllers/nodeclaim/disruption/drift.go`: `areStaticFieldsDrifted`, `areRequirementsDrifted`,
   `instanceTypeNotFound`, `isDrifted`, `Drift.Reconcile`, and the guards of `Controller.Reconcile`;
 * `pkg/controllers/nodepool/hash/controller.go`: `Reconcile` / `updateNodeClaimHash`;
-* `pkg/controllers/nodeclaim/lifecycle/launch.go`: `PopulateNodeClaimDetails` (labels / annotations);
+* `pkg/controllers/nodeclaim/lifecycle/launch.go`: `PopulateNodeClaimDetails` (labels / annotations), and `Launch.Reconcile` inside
+  `lifecycle.Controller.Reconcile` with its cache of created instances and API writes that may fail (`launchReconcile`);
 * `pkg/controllers/provisioning/scheduling/nodeclaimtemplate.go`: `NewNodeClaimTemplate` / `ToNodeClaim` — what a NodeClaim
   created from the NodePool AS IT IS STORED (whatever its annotations say) is stamped and labelled with (`createClaim`);
 as functions on a small state (one NodePool, some NodeClaims, the provider's answers), driven by histories of steps.
@@ -58,13 +59,21 @@ def requirementsDrifted (poolSels : List Sel) (labels : Labels) : Except NewErr 
   let P ← buildReqs poolSels
   pure (!(labelReqs labels).compatible P [])
 
-/-- an instance type as the provider lists it: its name and the requirements of each offering -/
-structure ITD where
-  name : String
-  offerings : List Reqs
+/-- an offering as the provider lists it: its requirements (zone, capacity type, reservation id) and whether capacity
+    can currently be launched into it (`Offering.Available`: false e.g. while spot capacity of that zone is sold out) -/
+structure Offer where
+  reqs : Reqs
+  available : Bool := true
 deriving Repr
 
-/-- `instanceTypeNotFound` -/
+/-- an instance type as the provider lists it: its name and its offerings -/
+structure ITD where
+  name : String
+  offerings : List Offer
+deriving Repr
+
+/-- `instanceTypeNotFound`: the instance type is looked up by name and `it.Offerings.HasCompatible(reqs)` goes through
+    EVERY listed offering — `Offer.available` is not read: an offering that is merely sold out is still offered -/
 def instanceTypeNotFound (its : List ITD) (labels : Labels) (wellKnown reservedLabels : List String) : Bool :=
   match its.find? (fun it => it.name == (labels.lookup instanceTypeKey).getD "") with
   | none => true
@@ -76,7 +85,7 @@ def instanceTypeNotFound (its : List ITD) (labels : Labels) (wellKnown reservedL
       if labels.lookup capacityTypeKey == some Karp.Gen.Labels.capacityTypeReserved then
         List.filter (fun p => !reservedLabels.contains p.1) (reqs.set capacityTypeKey both)
       else reqs
-    !(it.offerings.any (fun o => reqs.compatible o wellKnown))
+    !(it.offerings.any (fun o => reqs.compatible o.reqs wellKnown))
 
 /-! ### State -/
 
@@ -316,5 +325,59 @@ def run (s : St) : List Step → Except NewErr (List (St × Bool))
     let (s', e) ← step s st
     let tl ← run s' rest
     pure ((s', e) :: tl)
+
+/-! ### The launch under failing API writes (`lifecycle.Controller.Reconcile` → `Launch.Reconcile`)
+
+The lifecycle controller launches a NodeClaim with `CloudProvider.Create`, keeps the provider's answer in an in-memory
+cache keyed by the NodeClaim's UID, merges it into the NodeClaim (`PopulateNodeClaimDetails`), sets `Launched`, and then
+writes the NodeClaim back with up to three API calls: the finalizer patch (before the launch), the metadata patch (labels /
+annotations) and the status patch (providerID, `Launched`).  Any of them may fail; the work queue then reconciles again,
+and the launch is REPLAYED from the cache instead of calling `Create` a second time.  Whatever path sets `Launched` must
+leave the provider's labels (instance type, zone, capacity type, …: the launch choice) on the NodeClaim — a NodeClaim
+that is Launched without them fails its NodePool's requirements on those keys and has no instance type to be found. -/
+
+structure LaunchSt where
+  /-- the labels of the NodeClaim as stored by the API server -/
+  labels : Labels
+  /-- the termination finalizer is stored -/
+  finalizer : Bool := false
+  /-- the stored `Launched` condition is True (written together with `status.providerID`) -/
+  launched : Bool := false
+  /-- `Launch.cache`: the provider's answer to the `Create` call for this UID, while it is kept -/
+  cache : Option Labels := none
+  /-- number of `CloudProvider.Create` calls so far -/
+  creates : Nat := 0
+deriving Repr, DecidableEq
+
+/-- one `lifecycle.Controller.Reconcile` of a NodeClaim that is not being deleted; `provider` is what `Create` would answer
+    now, `failAt` numbers the API write of THIS reconcile that fails (1 = the first one issued, 0 = none fails).
+    Returns the new state and whether the reconcile returned an error. -/
+def launchReconcile (s : LaunchSt) (provider : Labels) (failAt : Nat) : LaunchSt × Bool :=
+  -- the finalizer patch comes first ("we shouldn't launch if we don't yet have the finalizer")
+  if !s.finalizer && failAt == 1 then (s, true) else
+  let w := if s.finalizer then 0 else 1    -- writes issued so far
+  let s := { s with finalizer := true }
+  -- `Launch.Reconcile`: a NodeClaim that is Launched drops its cache entry and is left alone
+  if s.launched then ({ s with cache := none }, false) else
+  -- the cached answer, or a real launch
+  let created := s.cache.getD provider
+  let s := { s with cache := some created, creates := if s.cache.isSome then s.creates else s.creates + 1 }
+  -- `PopulateNodeClaimDetails` + `Launched = True` happen in memory; then the metadata patch, then the status patch
+  if failAt == w + 1 then (s, true) else
+  let s := { s with labels := populateLabels s.labels created }
+  if failAt == w + 2 then (s, true) else
+  ({ s with launched := true }, false)
+
+/-- a history of reconciles of one NodeClaim (`fs`: the failing write of each reconcile): the states and error flags
+    after each.  `provider` is the provider's answer to `Create` for this NodeClaim (`C15_launch_creates_once`: it is
+    asked at most once, so one answer is all there is). -/
+def launchRun (s : LaunchSt) (provider : Labels) : List Nat → List (LaunchSt × Bool)
+  | [] => []
+  | f :: rest => let r := launchReconcile s provider f; r :: launchRun r.1 provider rest
+
+/-- the state after the whole history -/
+def launchFinal (s : LaunchSt) (provider : Labels) : List Nat → LaunchSt
+  | [] => s
+  | f :: rest => launchFinal (launchReconcile s provider f).1 provider rest
 
 end Karp.Drift
